@@ -7,7 +7,7 @@ from ..scen import data_input, time_input
 from ..vec import El, Sc, Vec
 from .c17 import equal_flags, t10
 
-DATA_CARRIERS = ['list_none', 'list_nan', 'tuple_nan', 'ndarray', 'series', 'masked']
+DATA_CARRIERS = ['list_none', 'list_nan', 'tuple_nan', 'ndarray', 'series', 'masked_nan', 'masked']
 TIME_CARRIERS = ['dt64', 'dt64_s', 'epoch_list', 'epoch_array', 'series', 'series_tz', 'dtindex', 'dtindex_tz', 'pydatetime']
 
 
